@@ -41,7 +41,10 @@ type Hint struct {
 // FreeSpec names the argument of a Free call symbolically.
 type FreeSpec struct {
 	// Kind: held (k-th outstanding block) | unheld (k-th free block) |
-	// any (block k mod N) | below | above (K blocks outside the pool) | otherfam
+	// any (block k mod N) | below | above (K blocks outside the pool) | otherfam |
+	// wider (IPv6: the address slice Allocate returned for the k-th outstanding block, with a
+	// mask Sub bits long, shorter than the pool's: if that prefix starts below the pool it is a
+	// prefix outside the pool and Free must refuse it)
 	Kind string `json:"kind"`
 	K    uint64 `json:"k,omitempty"`
 	// Sub > 0 (IPv6): free a sub-prefix of the block, Sub bits longer than the
@@ -514,6 +517,7 @@ func Exec(c Case) (res core.Result) {
 	sawFull, sawRealloc, sawMustFailFree, sawHintNonFirst := false, false, false, false
 	conc := false
 	everFreed := map[uint64]bool{}
+	retained := map[uint64]net.IP{} // the address slices Allocate returned, as they are now
 	fam := "v4"
 	if c.V6 {
 		fam = "v6"
@@ -571,6 +575,34 @@ func Exec(c Case) (res core.Result) {
 				sawRealloc = true
 			}
 			m.held[idx] = true
+			retained[idx] = got.IP
+			continue
+		}
+		if op.F.Kind == "wider" {
+			idx, ok := m.kthHeld(op.F.K)
+			if op.F.K%2 == 0 && m.held[0] {
+				idx, ok = 0, true // the first block is the one whose address may be shared with the pool's
+			}
+			ip := retained[idx]
+			if !ok || !c.V6 || ip == nil || c.PoolLen == 0 {
+				continue
+			}
+			l := op.F.Sub % c.PoolLen
+			mask := net.CIDRMask(l, 128)
+			_, pool, _ := net.ParseCIDR(fmt.Sprintf("%s/%d", c.Base, c.PoolLen))
+			if pool == nil || pool.Contains(ip.Mask(mask)) {
+				continue // a super-block that starts inside the pool: not defined
+			}
+			// the very slice Allocate returned goes back in: a caller may do that
+			err := a.Free(net.IPNet{IP: ip, Mask: mask})
+			sawMustFailFree = true
+			res.Classes = append(res.Classes, "free-wider-than-pool")
+			if err == nil && c.Mode == "C06" {
+				res.Viol = core.Violate("C06/"+fam+"/free-of-foreign-prefix-succeeds/wider", "op %d: Free(%s/%d), a prefix that starts below the pool (%s/%d), returned nil with %d blocks outstanding", i, ip, l, c.Base, c.PoolLen, len(m.held))
+				return
+			}
+			// other modes: nothing was released as far as the model is concerned; what the call did to
+			// later allocations is their business
 			continue
 		}
 		rf := m.resolveFree(op.F)
